@@ -57,14 +57,19 @@ def _xwrong(cname, opn, r, k, got, exp, acc, case, size, how):
     acc.violation(key, "%s: %s gives %s, group law gives %s" % (L, how, ustr(got), ustr(exp)), case, size=size)
 
 
-def check_xscalar(cname, r, k, acc, size=None):
+XOPS = ("mul", "rmul", "imul", "mul-Integer")
+
+
+def check_xscalar(cname, r, k, acc, size=None, ops=XOPS):
     L = H.LIBNAME[cname]
     case = {"part": "xscalar", "curve": cname, "P": r, "k": k}
+    if tuple(ops) != XOPS:
+        case["ops"] = list(ops)
     sP = rstr(cname, r)
     u = xref_eval(cname, r)
     exp = H.xmul(cname, k, u)
     set_seeds([BUILD_SEED])
-    for op in ("mul", "rmul", "imul", "mul-Integer"):
+    for op in ops:
         if op == "imul" and r == ("xreg",):
             continue
         P, _ = _xbuilt(cname, r, acc, case, size)
@@ -107,6 +112,19 @@ def check_xscalar(cname, r, k, acc, size=None):
                 acc.violation("C06/xscalar/%s/returns-same-object" % cname, "%s: %s returned its operand" % (L, how), case, size=size)
     if lib_x(registry_G(cname)) != R.CURVES[cname].Gu:
         acc.violation("C06/registry/%s/shared-generator-object-modified" % cname, "%s: shared generator modified" % L, case, size=size)
+
+
+def check_xsweep(cname, r, fam, w, lo, hi, acc, pidx=0):
+    """every scalar of the steps lo..hi-1 of a sweep family (see _c06_ref.sweep_families) on the EccXPoint r; the reference values
+    come from an addition chain of the exact affine group law on the curve / its twist (H.xsweep_ref)"""
+    u = xref_eval(cname, r)
+    ops = ("mul", "rmul") if r == ("xreg",) else ("mul", "imul")
+    per = ((1 << w) - 1) if fam == "digit" else 3
+    for j, (lab, k, V) in enumerate(H.xsweep_ref(cname, u, fam, w, lo, hi)):
+        check_xscalar(cname, r, k, acc, size=5 * 10**6 + ((lo * per + j) * 8 + pidx), ops=ops)
+        acc.count("sweep_cases")
+        acc.count("sweep_scalars/%s/%s%s" % (cname, fam, w or ""))
+    acc.seen("sweep", (cname, fam, w, r == ("xreg",)))
 
 
 def check_xpair(cname, rP, rQ, acc, size=None):
@@ -226,13 +244,43 @@ def ka_keysets(cname, count):
     if cname in H.MONT:
         nb = c.size_bytes
         z, f, a = bytes(nb), b"\xff" * nb, bytes(range(1, nb + 1))
-        s = [seeded("c06/ka/%s/%d" % (cname, i), nb) for i in range(6)]
+        s = [seeded("c06/ka/%s/%d" % (cname, i), nb) for i in range(12)]
         sets = [(s[0], s[1], s[2], s[3]), (z, f, a, s[4]), (f, z, s[5], a), (a, a, z, z), (s[0], s[1], s[0], s[1]), (s[4], f, f, s[4])]
+        if count > 6:
+            # sets 6..13 (thorough tier): strings that differ only in the bits removed / forced by the RFC 7748 clamping (equal keys),
+            # the smallest and the largest clamped scalar, bit patterns, one key in two roles
+            lowmask = 7 if cname == "curve25519" else 3
+
+            def flip_low(b):
+                return bytes([b[0] ^ lowmask]) + b[1:]
+
+            def flip_top(b):
+                return b[:-1] + bytes([b[-1] ^ 0x80])
+            sets += [(bytes([lowmask]) + z[1:], z[:-1] + b"\x80", s[6], s[7]),
+                     (flip_low(s[0]), s[0], flip_top(s[1]), s[1]),
+                     (b"\xf8" + f[1:-1] + b"\x7f", b"\x08" + z[1:], s[8], f),
+                     (s[9], s[10], s[11], s[6]),
+                     (a[::-1], a, s[7], s[7]),
+                     (s[8], s[8], s[9], s[9]),
+                     (b"\x55" * nb, b"\xaa" * nb, b"\x01" * nb, b"\x80" * nb),
+                     (s[10], z, f, s[11])]
     else:
         n = c.order
-        s = [1 + seeded_int("c06/ka/%s/%d" % (cname, i), c.bits + 64) % (n - 1) for i in range(6)]
+        s = [1 + seeded_int("c06/ka/%s/%d" % (cname, i), c.bits + 64) % (n - 1) for i in range(12)]
         sets = [(s[0], s[1], s[2], s[3]), (1, n - 1, 2, n - 2), (n - 1, 1, s[4], 2), (s[5], s[4], n - 1, n - 1), (s[0], s[1], s[0], s[1]),
                 (1 << (c.bits - 1), (1 << 64) - 1, n - 2, s[5])]
+        if count > 6:
+            # sets 6..13 (thorough tier): the smallest / largest private keys, opposite keys ((n-1)/2 and (n+1)/2), word-boundary
+            # values, all-ones and alternating bit patterns, one key in two roles
+            ones = int("f" * (c.bits // 4), 16) % (n - 1) + 1
+            sets += [(2, 3, n - 2, n - 3),
+                     (n - 1, n - 1, n - 1, n - 1),
+                     (1, 1, 1, 1),
+                     ((n - 1) // 2, (n + 1) // 2, s[6], s[7]),
+                     ((1 << (c.bits - 1)) - 1, 1 << 64, (1 << 128) + 1, s[8]),
+                     (s[9], s[10], s[11], s[6]),
+                     (s[7], s[7], s[8], s[8]),
+                     (ones, int("0f" * (c.bits // 8), 16), n - 2, 2)]
     return sets[:count]
 
 
@@ -274,14 +322,39 @@ def ref_dh(cname, priv, pub):
     return P[0].to_bytes(c.size_bytes, "big")
 
 
-def lib_keys(cname, priv):
-    """-> (private EccKey, public EccKey)"""
+KA_ROUTES = ("construct", "coords", "encoded")
+
+
+def lib_keys(cname, priv, route="construct"):
+    """-> (private EccKey, public EccKey).  Routes (how the two key objects come into being):
+    construct: ECC.construct(d= / seed=) and its .public_key();
+    coords:    NIST: ECC.construct(d=, point_x=, point_y=) and ECC.construct(point_x=, point_y=) with the REFERENCE coordinates;
+               X25519/X448: DH.import_x*_private_key(bytes) and DH.import_x*_public_key(reference public bytes);
+    encoded:   private key re-imported from its PKCS#8 DER export; public key imported from the reference's compressed SEC1 encoding
+               (NIST) / re-imported from its SubjectPublicKeyInfo DER export (X25519/X448)"""
     from Crypto.PublicKey import ECC
+    from Crypto.Protocol import DH
+    name = H.LIBNAME[cname]
+    c = R.CURVES[cname]
     if cname in H.MONT:
-        k = ECC.construct(curve=H.LIBNAME[cname], seed=priv)
+        k = ECC.construct(curve=name, seed=priv)
     else:
-        k = ECC.construct(curve=H.LIBNAME[cname], d=priv)
-    return k, k.public_key()
+        k = ECC.construct(curve=name, d=priv)
+    if route == "construct":
+        return k, k.public_key()
+    if route == "coords":
+        if cname in H.MONT:
+            ip, iu = ((DH.import_x25519_private_key, DH.import_x25519_public_key) if cname == "curve25519" else
+                      (DH.import_x448_private_key, DH.import_x448_public_key))
+            return ip(priv), iu(ref_public(cname, priv).to_bytes(c.size_bytes, "little"))
+        Q = ref_public(cname, priv)
+        return ECC.construct(curve=name, d=priv, point_x=Q[0], point_y=Q[1]), ECC.construct(curve=name, point_x=Q[0], point_y=Q[1])
+    if route == "encoded":
+        kk = ECC.import_key(k.export_key(format="DER"))
+        if cname in H.MONT:
+            return kk, ECC.import_key(k.public_key().export_key(format="DER"))
+        return kk, ECC.import_key(R.sec1_encode(c, ref_public(cname, priv), compressed=True), curve_name=name)
+    raise RuntimeError("harness: unknown key route %r" % (route,))
 
 
 def legal_Z(cname, subset, mine, peer_pub):
@@ -321,7 +394,7 @@ def scheme_name(subset):
     return "illegal"
 
 
-def check_ka(cname, ksi, nsets, acc):
+def check_ka(cname, ksi, nsets, acc, route="construct"):
     """all 16 subsets of the four keyword arguments, from U's view and (mirrored) from V's view"""
     from Crypto.Protocol import DH
     L = H.LIBNAME[cname]
@@ -329,8 +402,16 @@ def check_ka(cname, ksi, nsets, acc):
     set_seeds(KA_SEEDS)
     priv = {"U": {"static": sU, "eph": eU}, "V": {"static": sV, "eph": eV}}
     refpub = {w: {t: ref_public(cname, priv[w][t]) for t in ("static", "eph")} for w in "UV"}
-    lib = {w: {t: lib_keys(cname, priv[w][t]) for t in ("static", "eph")} for w in "UV"}
     case0 = {"part": "ka", "curve": cname, "keyset": ksi, "nsets": nsets}
+    if route != "construct":
+        case0["route"] = route
+    try:
+        lib = {w: {t: lib_keys(cname, priv[w][t], route) for t in ("static", "eph")} for w in "UV"}
+    except Exception as e:  # noqa
+        acc.violation("C06/ka/%s/valid-key-refused/%s" % (cname, type(e).__name__),
+                      "%s: building the key objects of key set %d by route %r raised %s(%s)" % (L, ksi, route, type(e).__name__, e), case0)
+        return
+    acc.seen("ka_routes", (cname, route))
     # the public keys themselves
     for w in "UV":
         for t in ("static", "eph"):
@@ -436,14 +517,16 @@ def neutral_us(cname):
     return sorted(out)
 
 
-def check_ka_neutral(cname, u, acc):
+def check_ka_neutral(cname, u, acc, nks=2):
     """a peer public key that makes a DH result the neutral element: every legal combination using it must end in ValueError
-    (at import time or at agreement time)"""
+    (at import time or at agreement time); nks = number of own key sets tried"""
     from Crypto.Protocol import DH
     L = H.LIBNAME[cname]
     set_seeds(KA_SEEDS)
-    privs = ka_keysets(cname, 2)
+    privs = ka_keysets(cname, nks)
     case = {"part": "kaneutral", "curve": cname, "u": u}
+    if nks != 2:
+        case["nks"] = nks
     for route, thunk in _neutral_pub_routes(cname, u):
         acc.count("evaluations")
         try:
@@ -496,27 +579,41 @@ def check_ka_neutral(cname, u, acc):
 # ---------------------------------------------------------------------------
 # X25519 / X448 on special public values, RFC 7748 5.2 iteration
 # ---------------------------------------------------------------------------
-def special_us(cname):
-    """non-low-order u values at the edges of the encoding: -> list of ints (< 2^(8*bytes))"""
+def special_us(cname, deep=False):
+    """non-low-order u values at the edges of the encoding: -> list of ints (< 2^(8*bytes)); deep (thorough tier) appends every
+    u up to 32, more neighbours of p, of 2^255 (bit masked by X25519) and of the top of the encoding, more seeded points"""
     c = R.CURVES[cname]
     p, nb = c.p, c.size_bytes
     low = set(neutral_us(cname))
     cand = [2, 3, c.Gu, p - 2, p - 3, p + 2, p + c.Gu, (1 << (8 * nb)) - 1, (1 << (8 * nb - 1)), (1 << (c.bits - 1)) + 1,
             (1 << c.bits) - 1 if cname == "curve25519" else (1 << 447) - 1, 2 * p - 2 if cname == "curve25519" else p - 4,
             H.xmul(cname, H.seeded_multiples(cname, 1)[0], c.Gu)]
+    if deep:
+        top = 1 << (8 * nb)
+        cand += list(range(4, 33)) + [p - d for d in range(4, 10)] + [p + d for d in range(3, 10)] + [top - d for d in range(2, 6)]
+        cand += [p - c.Gu, (p - 1) // 2, (p + 1) // 2, 1 << (c.bits - 1), (1 << (c.bits - 1)) - 1, top >> 1, (top >> 1) + 2, (top >> 1) - 1]
+        if cname == "curve25519":
+            cand += [(1 << 255) + d for d in (2, 9, 18, 20, 21)] + [2 * p + 2, 2 * p + 9, (1 << 255) - 20, (1 << 255) - 21, top - 19, top - 20]
+        cand += [H.xmul(cname, m, c.Gu) for m in H.seeded_multiples(cname, 6)[1:]]
     return [u for u in dict.fromkeys(cand) if u not in low and 0 <= u < (1 << (8 * nb))]
 
 
-def check_xdh_special(cname, u, acc):
+def check_xdh_special(cname, u, acc, deep=False):
     from Crypto.PublicKey import ECC
     from Crypto.Protocol import DH
     c = R.CURVES[cname]
     L = H.LIBNAME[cname]
     nb = c.size_bytes
     case = {"part": "xdhspecial", "curve": cname, "u": u}
+    if deep:
+        case["deep"] = True
     set_seeds(KA_SEEDS)
     imp = DH.import_x25519_public_key if cname == "curve25519" else DH.import_x448_public_key
     privs = [bytes(nb), b"\xff" * nb, bytes(range(1, nb + 1)), seeded("c06/xs/" + cname, nb)]
+    if deep:
+        # private strings that exercise the clamping (bits that are cleared / forced), bit patterns, more seeded strings
+        privs += [b"\x07" + bytes(nb - 1), bytes(nb - 1) + b"\x80", b"\xf8" + b"\xff" * (nb - 2) + b"\x7f", b"\x55" * nb, b"\xaa" * nb,
+                  b"\x01" * nb] + [seeded("c06/xs/%s/%d" % (cname, i), nb) for i in range(4)]
     ub = u.to_bytes(nb, "little")
     for route, thunk, ueff in (("import_x*_public_key", lambda: imp(ub), int.from_bytes(ub, "little") & ((1 << 255) - 1 if cname == "curve25519" else -1)),
                                ("ECC.construct(point_x=u)", lambda: ECC.construct(curve=L, point_x=u), u)):
